@@ -83,9 +83,12 @@ def qeNum : Num QE where
   div a b := QE.mk' (a.q / b.q) (a.rep && b.rep)
   powNat a n := QE.mk' (ratPowNat a.q n) a.rep
   rpow x y :=
-    if y.q.den == 1 then
+    if y.q == 0 then pure ⟨1, x.rep && y.rep⟩
+    else if x.q == eRat then throw .unsupported        -- `math.e ** y` is libm's exp, never exact
+    else if y.q.den == 1 then
       let k := y.q.num
-      if k ≥ 0 then pure (QE.mk' (ratPowNat x.q k.toNat) (x.rep && y.rep))
+      if (x.q.num.natAbs.log2 + x.q.den.log2 + 2) * k.natAbs > 200000 then throw .unsupported
+      else if k ≥ 0 then pure (QE.mk' (ratPowNat x.q k.toNat) (x.rep && y.rep))
       else pure (QE.mk' (1 / ratPowNat x.q (-k).toNat) (x.rep && y.rep))
     else if x.q == 1 then pure ⟨1, x.rep && y.rep⟩
     else if y.q.num == 1 && x.q > 0 && x.q != eRat then
